@@ -41,8 +41,9 @@ IMPORTS = ("Rules.EnvElab",)
 
 
 class Case:
-    def __init__(self, pidx, prog, goal, kind):
+    def __init__(self, pidx, prog, goal, kind, conj=None):
         self.pidx, self.prog, self.goal, self.kind = pidx, prog, goal, kind
+        self.conj = conj          # (vs, hs, g1, g2) for `forall<vs> { if (hs) { g1 }, g2 }` (either conjunct order)
         self.text = eg.goal_text(goal)
         self.ans = {}          # solver -> answer sx (Fresh)
         self.hist = {}         # solver -> [answers in History mode at each occurrence]
@@ -52,8 +53,22 @@ class Case:
         return hashlib.sha1((eg.to_text(self.prog) + "##" + self.text).encode()).hexdigest()[:16]
 
 
+def parts(c):
+    """(vs, hs, goal used for the class predicates)"""
+    if c.conj:
+        vs, hs, g1, g2 = c.conj
+        return vs, hs, ("and", (g1, g2))
+    return eg.split_if_goal(c.goal)
+
+
 def oracle_expr(c, dname):
     st = c.prog.symtab()
+    if c.conj:
+        vs, hs, g1, g2 = c.conj
+        scope = tuple(vs)
+        return ([dname], logic.ob("eval_if_and_decls %d %s %s %s %s %s" % (
+            FUEL, dname, sx.to_coq(eg.rho_model(vs)), sx.to_coq(eg.hyps_model(hs, st, scope)),
+            sx.to_coq(eg.goal_model(g1, st, scope)), sx.to_coq(eg.goal_model(g2, st, scope)))))
     vs, hs, body = eg.split_if_goal(c.goal)
     rho = eg.rho_model(vs)
     scope = tuple(vs)
@@ -61,12 +76,18 @@ def oracle_expr(c, dname):
         FUEL, dname, sx.to_coq(rho), sx.to_coq(eg.hyps_model(hs, st, scope)), sx.to_coq(eg.goal_model(body, st, scope)))))
 
 
-def gen_cases(rng, nprog, nif):
+def gen_cases(rng, nprog, nif, nconj=3):
     progs, cases = [], []
     for p, goals in eg.corpus_c06():
         pidx = len(progs)
         progs.append(p)
         for g in goals:
+            if g[0] == "conj":
+                _, vs, hs, g1, g2 = g
+                for order in (0, 1):
+                    body = ("and", ((("if", hs, g1), g2) if order == 0 else (g2, ("if", hs, g1))))
+                    cases.append(Case(pidx, p, ("forall", vs, body) if vs else body, "conj", conj=(vs, hs, g1, g2)))
+                continue
             cases.append(Case(pidx, p, g, "corpus"))
             n = eg.without_hyps(g)
             if eg.goal_text(n) not in [c.text for c in cases if c.pidx == pidx]:
@@ -90,6 +111,14 @@ def gen_cases(rng, nprog, nif):
             if tn not in seen:
                 seen.add(tn)
                 cases.append(Case(pidx, p, n, "nohyp"))
+        for vs, hs, g1, g2 in gg.conj_goals(nconj):
+            for order in (0, 1):
+                body = ("and", ((("if", hs, g1), g2) if order == 0 else (g2, ("if", hs, g1))))
+                g = ("forall", vs, body) if vs else body
+                t = eg.goal_text(g)
+                if t not in seen:
+                    seen.add(t)
+                    cases.append(Case(pidx, p, g, "conj", conj=(vs, hs, g1, g2)))
     return progs, cases
 
 
@@ -225,12 +254,12 @@ def run(ctx):
 
     def rec_class_expr(c):
         st = c.prog.symtab()
-        vs, hs, body = eg.split_if_goal(c.goal)
+        vs, hs, body = parts(c)
         return "rec_ambig_class %d D%d %s %s" % (FUEL, c.pidx, sx.to_coq(eg.rho_model(vs)), sx.to_coq(eg.hyps_model(hs, st, tuple(vs))))
 
     def slg_class_expr(c):
         st = c.prog.symtab()
-        vs, hs, body = eg.split_if_goal(c.goal)
+        vs, hs, body = parts(c)
         return "slg_cocycle_class D%d %s" % (c.pidx, sx.to_coq(eg.goal_model(body, st, tuple(vs))))
 
     rec_c = [c for c, sname, a, verdict in suspects
